@@ -836,8 +836,15 @@ class TrialDataManager(object):
             # If event indices are stored, we need to re-assign also those event
             # indices according to the new order.
             if self._src_evt_idxs is not None:
-                self._src_evt_idxs[1] = np.take(
-                    sorted_idxs, self._src_evt_idxs[1])
+                # The event at the new position j was at position
+                # sorted_idxs[j] before. Hence, an old event index i maps to
+                # the new event index inv_sorted_idxs[i].
+                inv_sorted_idxs = np.empty_like(sorted_idxs)
+                inv_sorted_idxs[sorted_idxs] = np.arange(len(sorted_idxs))
+                self._src_evt_idxs = (
+                    self._src_evt_idxs[0],
+                    np.take(inv_sorted_idxs, self._src_evt_idxs[1])
+                )
 
         # Create the src_evt_idxs property data in case it was not provided by
         # the event selection. In that case all events are selected for all
